@@ -70,7 +70,10 @@ def run_one(path):
     name = os.path.basename(path)[:-5]
     d = scratch_copy()
     try:
-        apply_edit(d, m)
+        try:
+            apply_edit(d, m)
+        except RuntimeError as e:
+            return name, 'STALE-ANCHOR', str(e)[:160]
         try:
             F = Facts(extract.extract('default', repo=d, manifest_dir=d))
         except extract.ExtractError as e:
